@@ -1477,3 +1477,1515 @@ class StTranslator(ObjTranslator):
                 B = []
                 vals.append("f_%s := %s" % (nm, "0" if (e0.get("kind") == "InitListExpr") else h.ex(e0, B)))
         return "def %s_default : %s_St := { %s }\n" % (self.cls.lean, self.cls.lean, ", ".join(vals))
+
+
+# =====================================================================================================================
+# PACKET VALUE MODE: `PayloadType`, `Payload` (+ the constructors of its subclasses that `Packet::create` reaches) and `Packet` with
+# its owned payload, as VALUES.
+#
+#   * a class with one scalar data member (`PayloadType`) is FLAT: an object is the bit pattern of that member (a `Nat`);
+#   * a class with data members is a Lean record (`Payload_St`, `PacketV_St`), one field per member in declaration order:
+#     scalars, `std::vector<uint8_t>` (Bytes), members of a flat class (Nat), `std::unique_ptr<C>` (`Option C_St`; `get()` /
+#     `operator bool` = `isSome`, `*p` / `p->` on a null pointer = undefined = `none`);
+#   * a class derived from a record class without data members of its own shares the record of its base (its dynamic type is not
+#     observable through the translated functions); its constructors are followed through their base initialisers;
+#   * methods are `State -> args -> Option (State x result)`, constructors `args -> Option State`, free functions
+#     `args -> Option result`; a non-const reference parameter of a record class is in-out (its final value is an extra result);
+#     two reference parameters / `this` and a reference parameter denote DISTINCT objects, except in the `_self` variant that is
+#     generated (from the same body) for a method that compares `this` with the address of a parameter;
+#   * the comparison of two pointers into the byte vectors of two objects cannot be decided from values: it is the explicit
+#     Bool parameter `g_samePtr` of the function (and of its callers);
+#   * loops are recursion on fuel; a `return` inside a loop leaves it with `some value`.
+# Everything of these classes that has a body and is not translated is listed, with the reason, in `PacketValue_untranslated`.
+# =====================================================================================================================
+
+PV_OPNAMES = {"operator==": "opEq", "operator!=": "opNe", "operator=": "opAssign"}
+PV_STRIP = ("ParenExpr", "ExprWithCleanups", "MaterializeTemporaryExpr", "CXXBindTemporaryExpr")
+
+
+class PvClass:
+    def __init__(self, PT, rec, kind, stname=None, root=None):
+        T = PT.T
+        self.PT = PT
+        self.rec = rec
+        self.kind = kind            # "flat" | "rec" | "sub"
+        self.qual = T.tu.qualname(rec)
+        self.name = T.ident(self.qual)
+        self.lean = self.name       # ObjFn compatibility
+        self.root = root if root is not None else self
+        self.stname = stname or self.name
+        self.fields = []            # (name, kind, info): kind scalar (info ctype) | bytes | flat (info class) | uptr (info class)
+        self.by_name = {}           # ObjFn compatibility: name -> (name, kind, ctype)
+        self.elem = None
+
+    def ltype(self):
+        if self.kind == "flat":
+            return "Nat"
+        return "%s_St" % self.root.stname
+
+    def collect_fields(self):
+        PT, T = self.PT, self.PT.T
+        own = [c for c in self.rec.get("inner", []) if c.get("kind") == "FieldDecl"]
+        if any(c.get("kind") == "CXXMethodDecl" and (c.get("virtual") or c.get("pure")) for c in self.rec.get("inner", [])):
+            # objects of derived classes share the record of their base: only right while nothing but the destructor is virtual
+            raise Untranslatable("class %s has virtual methods (the dynamic type would be observable)" % self.qual)
+        if self.kind == "sub":
+            if own:
+                raise Untranslatable("derived class %s has data members of its own" % self.qual)
+            return
+        if self.rec.get("bases"):
+            raise Untranslatable("class %s has base classes" % self.qual)
+        for c in own:
+            if not c.get("name") or c.get("isBitfield") or c.get("mutable"):
+                raise Untranslatable("unnamed / bit-field / mutable member in %s" % self.qual)
+            t = c.get("type", {})
+            q = strip_cv(t.get("desugaredQualType") or t.get("qualType") or "")
+            if q in BYTES:
+                self.fields.append((c["name"], "bytes", None))
+                continue
+            pv = PT.pvtype(t)
+            if pv is not None and pv[0] == "flat":
+                self.fields.append((c["name"], "flat", pv[1]))
+                continue
+            if pv is not None and pv[0] == "uptr":
+                self.fields.append((c["name"], "uptr", pv[1]))
+                continue
+            if pv is not None:
+                raise Untranslatable("member %s::%s of type %s" % (self.qual, c["name"], q))
+            ct = T.ctype(t)
+            if ct[0] not in ("i", "b"):
+                raise Untranslatable("member %s::%s of type %s" % (self.qual, c["name"], q))
+            self.fields.append((c["name"], "scalar", ct))
+        if self.kind == "flat" and not (len(self.fields) == 1 and self.fields[0][1] == "scalar" and self.fields[0][2][0] == "i"):
+            raise Untranslatable("class %s is not a single-scalar class" % self.qual)
+        self.by_name = {f[0]: (f[0], f[1], f[2] if f[1] == "scalar" else None) for f in self.fields}
+
+    def field_ltype(self, f):
+        nm, k, info = f
+        if k == "bytes":
+            return "Bytes"
+        if k == "flat":
+            return "Nat"
+        if k == "uptr":
+            return "Option %s" % info.ltype()
+        return "Bool" if info[0] == "b" else "Nat"
+
+    def struct(self):
+        out = ["/-- value of a `%s` object: one field per data member, in declaration order -/" % self.qual, "structure %s_St where" % self.stname]
+        for f in self.fields:
+            out.append("  f_%s : %s" % (f[0], self.field_ltype(f)))
+        out.append("deriving Repr, Inhabited, DecidableEq\n")
+        return "\n".join(out)
+
+
+class Place:
+    """where an object / member lives in the translated state, and how it is read and written back"""
+
+    def __init__(self, kind, ty, name=None, base=None, field=None, const=False):
+        self.kind = kind      # var | field | deref
+        self.ty = ty          # ("obj", cls) | ("flat", cls) | ("uptr", cls) | ("bytes",) | scalar ctype
+        self.name = name
+        self.base = base
+        self.field = field
+        self.const = const
+
+    def pure(self):
+        """Lean term without binds, or None (a dereference needs a bind)"""
+        if self.kind == "var":
+            return self.name
+        if self.kind == "field":
+            b = self.base.pure()
+            return None if b is None else "%s.f_%s" % (b, self.field)
+        return None
+
+    def read(self, fn, B):
+        if self.kind == "var":
+            return self.name
+        if self.kind == "field":
+            return "%s.f_%s" % (self.base.read(fn, B), self.field)
+        t = fn.fresh("d")
+        B.append("let %s ← %s" % (t, self.base.read(fn, B)))        # `*p` / `p->` on a null unique_ptr: undefined
+        return t
+
+    def write(self, fn, v, B):
+        if self.const:
+            raise Untranslatable("write to a const object")
+        if self.kind == "var":
+            B.append("let %s := %s" % (self.name, v))
+            return
+        if self.kind == "field":
+            b = self.base.pure()
+            if b is None:
+                b = self.base.read(fn, B)
+            self.base.write(fn, "{ %s with f_%s := %s }" % (b, self.field, v), B)
+            return
+        self.base.write(fn, "(some %s)" % v, B)
+
+    def retyped(self, ty):
+        p = Place(self.kind, ty, self.name, self.base, self.field, self.const)
+        return p
+
+
+class PvFnInfo:
+    """what a caller needs to know about a translated function"""
+    pass
+
+
+class PvFn(ObjFn):
+    def __init__(self, PT, node, alias=False):
+        FnTr.__init__(self, PT.T, node)
+        ObjFn.__init__(self, PT, node)
+        self.PT = PT
+        self.alias = alias
+        self.objs = {}          # decl id -> Place of an object / flat / unique_ptr parameter or local
+        self.inout = []         # (lean name, lean type) of the non-const reference parameters, in order
+        self.gparams = []       # explicit Bool parameters standing for undecidable pointer comparisons
+        self.has_s = False
+        self.is_ctor = False
+        self.addr_cmp = False   # compares `this` with the address of a parameter
+        self.alias_of = None    # decl id of the parameter that IS `*this` in the `_self` variant
+        self.this_override = None
+        self.loop_ret = []      # stack of loop result builders
+        self.ret_lty = None
+        self.ret_self = False
+        self.pcls = None
+        self.const_this = False
+
+    # ------------------------------------------------------------------ helpers
+    def strip(self, n, casts=("NoOp", "DerivedToBase", "UncheckedDerivedToBase", "ConstructorConversion")):
+        while True:
+            k = n.get("kind")
+            if k in PV_STRIP and n.get("inner"):
+                n = n["inner"][0]
+            elif k == "ImplicitCastExpr" and n.get("castKind") in casts:
+                n = n["inner"][0]
+            else:
+                return n
+
+    def pvty(self, n):
+        return self.PT.pvtype(n.get("type"))
+
+    def this_place(self):
+        if self.this_override is not None:
+            return self.this_override
+        if not self.has_s:
+            raise Untranslatable("`this` in a function without object")
+        return Place("var", (self.pcls.kind == "flat" and ("flat", self.pcls)) or ("obj", self.pcls), name="s", const=self.const_this)
+
+    def this_field(self, n):
+        # the ObjFn paths that read `s.f_x` directly are only right for a record class and the real `this`
+        if self.pcls is None or self.pcls.kind == "flat" or self.this_override is not None:
+            return None
+        f = ObjFn.this_field(self, n)
+        if f is not None and f[1] not in ("scalar", "bytes"):
+            return None
+        return f
+
+    def callee_decl(self, n):
+        """declaration id of the function an expression calls, or None"""
+        k = n.get("kind")
+        if k == "CXXMemberCallExpr":
+            me = n["inner"][0]
+            while me.get("kind") in ("ParenExpr", "ImplicitCastExpr"):
+                me = me["inner"][0]
+            if me.get("kind") == "MemberExpr":
+                return me.get("referencedMemberDecl")
+            return None
+        if k in ("CallExpr", "CXXOperatorCallExpr"):
+            c = self.strip_casts(n["inner"][0])
+            if c.get("kind") == "DeclRefExpr":
+                return c.get("referencedDecl", {}).get("id")
+        return None
+
+    # ------------------------------------------------------------------ places (object lvalues)
+    def place(self, n, B):
+        """Place denoted by an lvalue expression, or None if it is not one of the value-mode shapes"""
+        n = self.strip(n)
+        k = n.get("kind")
+        if k == "CXXThisExpr":
+            return None
+        if k == "UnaryOperator" and n.get("opcode") == "*":
+            x = self.strip(n["inner"][0])
+            if x.get("kind") == "CXXThisExpr":
+                return self.this_place()
+            # *p.get()
+            if x.get("kind") == "CXXMemberCallExpr" and len(x["inner"]) == 1:
+                me = x["inner"][0]
+                if me.get("kind") == "MemberExpr" and me.get("name") == "get":
+                    p = self.place(me["inner"][0], B)
+                    if p is not None and p.ty[0] == "uptr":
+                        return Place("deref", ("obj", p.ty[1]), base=p, const=False)
+            return None
+        if k == "DeclRefExpr":
+            did = n["referencedDecl"]["id"]
+            if self.alias and did == self.alias_of:
+                p = self.this_place()
+                return Place(p.kind, p.ty, p.name, p.base, p.field, const=True)
+            return self.objs.get(did)
+        if k == "CXXOperatorCallExpr" and len(n["inner"]) == 2:
+            nm = self.strip_casts(n["inner"][0]).get("referencedDecl", {}).get("name")
+            if nm in ("operator*", "operator->"):
+                p = self.place(n["inner"][1], B)
+                if p is not None and p.ty[0] == "uptr":
+                    # the pointee of a const unique_ptr is not const
+                    return Place("deref", ("obj", p.ty[1]), base=p, const=False)
+            return None
+        if k == "MemberExpr":
+            fd = self.tu.decl(n["referencedMemberDecl"])
+            if fd.get("kind") != "FieldDecl":
+                return None
+            b = self.strip(n["inner"][0])
+            if n.get("isArrow"):
+                if b.get("kind") == "CXXThisExpr":
+                    base = self.this_place()
+                elif b.get("kind") == "CXXOperatorCallExpr":
+                    base = self.place(b, B)        # p->member
+                else:
+                    return None
+            else:
+                base = self.place(b, B)
+            if base is None or base.ty[0] not in ("obj", "flat"):
+                return None
+            cls = base.ty[1].root if base.ty[0] == "obj" else base.ty[1]
+            fld = [f for f in cls.fields if f[0] == n.get("name")]
+            owner = self.tu.context(fd)
+            if len(fld) != 1 or owner is None or self.tu.qualname(owner) != cls.qual:
+                raise Untranslatable("member %s of %s" % (n.get("name"), cls.qual))
+            nm, fk, info = fld[0]
+            ty = {"bytes": ("bytes",), "flat": ("flat", info), "uptr": ("uptr", info)}.get(fk) or info
+            if base.ty[0] == "flat":
+                return base.retyped(ty)            # the object IS its member
+            return Place("field", ty, base=base, field=nm, const=base.const)
+        return None
+
+    # ------------------------------------------------------------------ lvalues of scalars
+    def lv(self, n, B):
+        x = n
+        while x.get("kind") == "ParenExpr":
+            x = x["inner"][0]
+        if x.get("kind") in ("MemberExpr", "DeclRefExpr"):
+            p = self.place(x, B)
+            if p is not None:
+                if p.ty[0] not in ("i", "b"):
+                    raise Untranslatable("non-scalar member used as a scalar")
+                return ("place", p)
+        if x.get("kind") == "ArraySubscriptExpr":
+            base, idx = x["inner"]
+            pp = self.pptr(base, B)
+            if pp is not None:
+                bt = self.ty(base)
+                if bt[0] != "p" or self.T.sizeof_type(bt[1]) != 1:
+                    raise Untranslatable("subscript of a pointer to non-bytes")
+                it = self.ty(idx)
+                i = self.ex(idx, B)
+                if it[0] != "i":
+                    raise Untranslatable("index type")
+                if it[2]:
+                    t = self.fresh()
+                    B.append("let %s ← nonneg %d %s" % (t, it[1], i))
+                    i = t
+                return ("pmem", pp[0], "(%s + %s)" % (pp[1], i) if pp[1] != "0" else i)
+        return ObjFn.lv(self, n, B)
+
+    def load(self, l, B):
+        if l[0] == "place":
+            return l[1].read(self, B)
+        if l[0] == "pmem":
+            t = self.fresh()
+            B.append("let %s ← rd %s %s 1" % (t, self.rbytes(l[1]), l[2]))
+            return t
+        return ObjFn.load(self, l, B)
+
+    def store(self, l, v, B, vt):
+        if l[0] == "place":
+            l[1].write(self, v, B)
+            return
+        if l[0] == "pmem":
+            raise Untranslatable("store through a pointer into another object")
+        return ObjFn.store(self, l, v, B, vt)
+
+    # ------------------------------------------------------------------ regions / pointers with provenance
+    def region_of(self, n):
+        x = n
+        while x.get("kind") in ("ParenExpr", "ImplicitCastExpr", "MaterializeTemporaryExpr", "ExprWithCleanups"):
+            x = x["inner"][0]
+        if x.get("kind") == "MemberExpr":
+            b = self.strip(x["inner"][0])
+            if not (b.get("kind") == "CXXThisExpr" and self.this_override is None):
+                p = self.place(x, [])
+                if p is not None and p.ty == ("bytes",) and p.pure() is not None:
+                    return ("pl", p)
+                return None
+        return ObjFn.region_of(self, n)
+
+    def rbytes(self, r):
+        if r[0] == "pl":
+            return r[1].pure()
+        return ObjFn.rbytes(self, r)
+
+    def rstore(self, r, v, B):
+        if r[0] == "pl":
+            r[1].write(self, v, B)
+            return
+        if self.const_this:
+            raise Untranslatable("write to a member vector in a const method")
+        return ObjFn.rstore(self, r, v, B)
+
+    def pptr(self, n, B):
+        x = n
+        while (x.get("kind") in ("ParenExpr", "ImplicitCastExpr", "CXXReinterpretCastExpr", "CStyleCastExpr", "CXXStaticCastExpr") and x.get("castKind") in (None, "BitCast", "NoOp", "LValueToRValue")) \
+                or x.get("kind") in ("MaterializeTemporaryExpr", "ExprWithCleanups", "CXXBindTemporaryExpr"):
+            x = x["inner"][0]
+        if x.get("kind") == "CXXMemberCallExpr" and len(x["inner"]) == 1:
+            me = x["inner"][0]
+            if me.get("kind") == "MemberExpr" and not me.get("isArrow") and me.get("name") != "data":
+                p = self.place(me["inner"][0], B)
+                if p is not None and p.ty[0] == "obj" and p.pure() is not None:
+                    # a method of another object whose body is `return <pointer expression>;`: followed with `this` = that object
+                    try:
+                        d = self.T.definition(me["referencedMemberDecl"])
+                    except Untranslatable:
+                        d = None
+                    body = TU.body_of(d).get("inner", []) if d is not None else []
+                    if len(body) == 1 and body[0].get("kind") == "ReturnStmt" and body[0].get("inner"):
+                        old = self.this_override
+                        self.this_override = p
+                        try:
+                            return self.pptr(body[0]["inner"][0], B)
+                        finally:
+                            self.this_override = old
+        return ObjFn.pptr(self, n, B)
+
+    # ------------------------------------------------------------------ values of class type
+    def val(self, n, B):
+        """Lean term for an expression whose type is a flat class / record class / unique_ptr / wire record by value"""
+        x = self.strip(n)
+        k = x.get("kind")
+        if k == "ImplicitCastExpr" and x.get("castKind") == "LValueToRValue":
+            return self.val(x["inner"][0], B)
+        if k in ("CXXConstructExpr", "CXXTemporaryObjectExpr"):
+            return self.construct(x, B)
+        if k == "CXXFunctionalCastExpr" and x.get("inner"):
+            return self.val(x["inner"][0], B)
+        if k == "InitListExpr" and len(x.get("inner", [])) == 1:
+            return self.val(x["inner"][0], B)
+        if k == "CallExpr" and self.strip_casts(x["inner"][0]).get("referencedDecl", {}).get("name") == "make_unique" \
+                and self.strip_casts(x["inner"][0])["referencedDecl"].get("id") not in self.tu.nodes:
+            return self.make_unique(x, B)
+        if k in ("CallExpr", "CXXMemberCallExpr") or (k == "CXXOperatorCallExpr" and self.strip_casts(x["inner"][0]).get("referencedDecl", {}).get("name") not in ("operator*", "operator->")):
+            did = self.callee_decl(x)
+            if did is not None and self.PT.is_pv_decl(did):
+                r = self.call_pv(x, B)
+                if r is None:
+                    raise Untranslatable("void call used as a value")
+                return r
+            raise Untranslatable("call returning a class value outside the value mode")
+        p = self.place(x, B)
+        if p is not None:
+            return p.read(self, B)
+        raise Untranslatable("class-typed expression " + str(k))
+
+    def find_ctor(self, cls, ctor_type):
+        """(declaration, defining node or None) of the constructor of `cls` with the given type string"""
+        found = [c for c in cls.rec.get("inner", []) if c.get("kind") == "CXXConstructorDecl" and c.get("type", {}).get("qualType") == ctor_type]
+        if len(found) != 1:
+            raise Untranslatable("constructor %s of %s not found" % (ctor_type, cls.qual))
+        c = found[0]
+        d = self.tu.bodies.get(c["id"])
+        return c, d
+
+    @staticmethod
+    def ctor_params(c):
+        return [p for p in c.get("inner", []) if p.get("kind") == "ParmVarDecl"]
+
+    def is_copy_or_move(self, cls, c):
+        ps = self.ctor_params(c)
+        if len(ps) != 1:
+            return None
+        q = ps[0].get("type", {}).get("qualType", "").strip()
+        pv = self.PT.pvtype(ps[0].get("type"))
+        if pv is None or pv[0] not in ("obj", "flat") or pv[1] is not cls:
+            return None
+        if q.endswith("&&"):
+            return "move"
+        if q.endswith("&") and q.startswith("const"):
+            return "copy"
+        return None
+
+    def construct(self, x, B):
+        pv = self.pvty(x)
+        args = [a for a in x.get("inner", []) if a.get("kind") != "CXXDefaultArgExpr"]
+        ct = x.get("ctorType", {}).get("qualType", "")
+        if pv is None:
+            raise Untranslatable("construction of " + x.get("type", {}).get("qualType", "?"))
+        if pv[0] == "uptr":
+            if not args:
+                return "none"                                     # a null pointer
+            if len(args) == 1 and len(x.get("inner", [])) == 1:
+                a = args[0]
+                apv = self.pvty(a)
+                if apv is not None and apv[0] == "uptr" and a.get("kind") == "MaterializeTemporaryExpr":
+                    return self.val(a, B)                         # ownership taken over from a temporary (also unique_ptr<Derived>)
+            raise Untranslatable("unique_ptr constructor " + ct)
+        if pv[0] == "wrec":
+            # a trivially copyable wire record copied out of the memory: its bytes
+            if len(args) == 1 and pv[1] in self.T.layout.default:       # reflected: default-constructible, trivially copyable and destructible
+                a = self.strip(args[0])
+                if a.get("kind") == "UnaryOperator" and a.get("opcode") == "*":
+                    addr = self.ex(a["inner"][0], B)
+                    self.fn.uses_mem = True
+                    t = self.fresh()
+                    B.append("let %s ← takeExact (m.drop %s) %d" % (t, addr, self.T.layout.size[pv[1]]))
+                    return t
+            raise Untranslatable("wire record construction " + ct)
+        cls = pv[1]
+        c, d = self.find_ctor(cls, ct)
+        cm = self.is_copy_or_move(cls, c)
+        if cls.kind == "flat" and cm is not None and c.get("isImplicit"):
+            if len(args) != 1:
+                raise Untranslatable("copy of a flat object")
+            return self.val(args[0], B)                           # implicit copy / move of a single-scalar class: the value
+        if cm == "move":
+            raise Untranslatable("move construction of " + cls.qual)
+        if d is None:
+            raise Untranslatable("constructor %s of %s has no body" % (ct, cls.qual))
+        return self.call_ctor(d, args, B)
+
+    def call_ctor(self, d, args, B):
+        g = self.PT.translate(d)
+        argv, ios = self.args_for(g, args, B)
+        self.absorb(g)
+        t = self.fresh("o")
+        ionames = [self.fresh("o") for _ in ios]
+        pat = t if not ios else "(%s)" % ", ".join([t] + ionames)
+        B.append("let %s ← %s" % (pat, self.call_text(g, None, argv)))
+        for p, nm in zip(ios, ionames):
+            p.write(self, nm, B)
+        return t
+
+    def make_unique(self, x, B):
+        pv = self.pvty(x)
+        if pv is None or pv[0] != "uptr":
+            raise Untranslatable("make_unique of " + x.get("type", {}).get("qualType", "?"))
+        cls = pv[1]
+        args = x["inner"][1:]
+        # overload resolution of `new T(std::forward<Args>(args)...)` (the instantiation of make_unique is not part of the dump):
+        # by arity and by the kind of every argument; exactly one candidate must remain
+        cands = []
+        for c in cls.rec.get("inner", []):
+            if c.get("kind") != "CXXConstructorDecl":
+                continue
+            ps = self.ctor_params(c)
+            if len(ps) != len(args):
+                continue
+            conv = []
+            ok = True
+            for p, a in zip(ps, args):
+                ppv = self.PT.pvtype(p.get("type"))
+                apv = self.pvty(a)
+                pq = p.get("type", {}).get("qualType", "").strip()
+                if ppv is not None and ppv[0] == "obj":
+                    if apv is None or apv[0] != "obj" or apv[1].root is not ppv[1].root:
+                        ok = False
+                    elif pq.endswith("&&"):
+                        ok = ok and a.get("valueCategory") in ("xvalue", "prvalue")
+                    else:
+                        ok = ok and pq.endswith("&") and pq.startswith("const") and a.get("valueCategory") == "lvalue"
+                    conv.append("obj")
+                elif ppv is not None and ppv[0] == "flat":
+                    if apv is not None and apv[0] == "flat" and apv[1] is ppv[1]:
+                        conv.append("flat")
+                    elif apv is None and self.scalar_kind(a) == "i":
+                        conv.append(("convert", ppv[1]))
+                    else:
+                        ok = False
+                elif ppv is not None:
+                    ok = False
+                else:
+                    try:
+                        pk = self.T.ctype(p.get("type"))[0]
+                    except Untranslatable:
+                        ok = False
+                        continue
+                    ak = self.scalar_kind(a)
+                    if ak is None or (pk == "p") != (ak == "p"):
+                        ok = False
+                    conv.append("scalar")
+            if ok:
+                cands.append((c, conv))
+        if len(cands) != 1:
+            raise Untranslatable("make_unique<%s>: %d candidate constructors" % (cls.qual, len(cands)))
+        c, conv = cands[0]
+        if self.is_copy_or_move(cls, c) == "move":
+            raise Untranslatable("make_unique moving from an object")
+        d = self.tu.bodies.get(c["id"])
+        if d is None:
+            raise Untranslatable("constructor of %s has no body" % cls.qual)
+        g = self.PT.translate(d)
+        argv = []
+        for (pn, pt, mode), a, cv in zip(g.params, args, conv):
+            if mode == "inout":
+                raise Untranslatable("make_unique with a reference parameter")
+            if cv in ("obj", "flat"):
+                argv.append(self.val(a, B))
+            elif isinstance(cv, tuple):
+                argv.append(self.convert_to_flat(cv[1], a, B))
+            else:
+                v = self.ex(a, B)
+                at = self.ty(a)
+                if at != pt and at[0] in ("i", "b") and pt[0] in ("i", "b"):
+                    v = self.cast(v, at, pt)
+                argv.append(v)
+        self.absorb(g)
+        t = self.fresh("o")
+        B.append("let %s ← %s" % (t, self.call_text(g, None, argv)))
+        return "(some %s)" % t
+
+    def enum_const(self, a):
+        """value of an expression that is just an enumerator (also of an unnamed enum), or None"""
+        x = self.strip(a)
+        while x.get("kind") in ("ImplicitCastExpr", "ConstantExpr") and x.get("inner"):
+            x = x["inner"][0]
+        if x.get("kind") == "DeclRefExpr" and x.get("referencedDecl", {}).get("kind") == "EnumConstantDecl":
+            return self.enum_value(self.tu.decl(x["referencedDecl"]["id"]))
+        return None
+
+    def scalar_kind(self, a):
+        if self.enum_const(a) is not None:
+            return "i"
+        try:
+            return self.ty(a)[0]
+        except Untranslatable:
+            return None
+
+    def convert_to_flat(self, cls, a, B):
+        """implicit conversion of an integer / enumerator to a flat class through its unique converting constructor"""
+        cs = [c for c in cls.rec.get("inner", []) if c.get("kind") == "CXXConstructorDecl" and len(self.ctor_params(c)) == 1
+              and self.is_copy_or_move(cls, c) is None and not c.get("explicit")]
+        if len(cs) != 1:
+            raise Untranslatable("conversion to %s is ambiguous" % cls.qual)
+        d = self.tu.bodies.get(cs[0]["id"])
+        if d is None:
+            raise Untranslatable("converting constructor without body")
+        g = self.PT.translate(d)
+        pt = g.params[0][1]
+        ev = self.enum_const(a)
+        if pt[0] != "i":
+            raise Untranslatable("conversion to %s from a non-integer" % cls.qual)
+        if ev is not None:
+            v = str(ev % 2 ** pt[1])
+        else:
+            at = self.ty(a)
+            if at[0] != "i":
+                raise Untranslatable("conversion to %s from a non-integer" % cls.qual)
+            v = self.cast(self.ex(a, B), at, pt)
+        self.absorb(g)
+        t = self.fresh("o")
+        B.append("let %s ← %s" % (t, self.call_text(g, None, [v])))
+        return t
+
+    # ------------------------------------------------------------------ calls of value-mode functions
+    def absorb(self, g):
+        if g.uses_mem:
+            self.fn.uses_mem = True
+        if g.has_fuel:
+            self.has_fuel = True
+        for p in g.gparams:
+            if p not in self.gparams:
+                self.gparams.append(p)
+
+    def call_text(self, g, thisv, argv):
+        parts = [g.lean]
+        if g.has_fuel:
+            parts.append("fuel")
+        parts += g.gparams
+        if thisv is not None:
+            parts.append(thisv)
+        if g.uses_mem:
+            parts.append("m")
+        parts += argv
+        return " ".join(parts)
+
+    def args_for(self, g, args, B):
+        args = [a for a in args if a.get("kind") != "CXXDefaultArgExpr"]
+        if len(args) != len(g.params):
+            raise Untranslatable("argument count")
+        argv, ios = [], []
+        for (pn, pt, mode), a in zip(g.params, args):
+            if mode == "inout":
+                p = self.place(a, B)
+                if p is None or p.const or p.ty[0] != "obj":
+                    raise Untranslatable("argument for a reference parameter")
+                argv.append(p.read(self, B))
+                ios.append(p)
+            elif pt[0] in ("obj", "flat", "uptr", "wrec"):
+                apv = self.pvty(a)
+                if apv is None and pt[0] == "flat":
+                    argv.append(self.convert_to_flat(pt[1], a, B))
+                else:
+                    argv.append(self.val(a, B))
+            else:
+                argv.append(self.ex(a, B))
+        return argv, ios
+
+    def call_pv(self, n, B):
+        """call of a value-mode function; returns the Lean term of its value or None"""
+        k = n.get("kind")
+        did = self.callee_decl(n)
+        d = self.T.definition(did)
+        thisp = None
+        if k == "CXXMemberCallExpr":
+            me = n["inner"][0]
+            while me.get("kind") in ("ParenExpr", "ImplicitCastExpr"):
+                me = me["inner"][0]
+            args = n["inner"][1:]
+            g = self.PT.translate(d)
+            if g.kind == "method":
+                b = self.strip(me["inner"][0])
+                if me.get("isArrow") and b.get("kind") == "CXXThisExpr":
+                    thisp = self.this_place()
+                elif me.get("isArrow"):
+                    x = b
+                    while x.get("kind") == "ImplicitCastExpr" and x.get("castKind") in ("NoOp", "LValueToRValue"):
+                        x = x["inner"][0]
+                    thisp = self.place(x, B) if x.get("kind") == "CXXOperatorCallExpr" else None
+                else:
+                    thisp = self.place(b, B)
+                    if thisp is None and self.pvty(b) is not None and b.get("valueCategory") == "prvalue":
+                        thisp = Place("var", self.pvty(b)[:2], name=self.val(b, B), const=True)      # a temporary
+                if thisp is None:
+                    raise Untranslatable("object of a method call")
+        else:
+            args = n["inner"][1:]
+            g = self.PT.translate(d)
+            if g.kind == "method":
+                # `a = b` / `a == b` as a member operator: the first argument is the object
+                thisp = self.place(args[0], B)
+                args = args[1:]
+                if thisp is None:
+                    raise Untranslatable("object of a member operator")
+        argv, ios = self.args_for(g, args, B)
+        thisv = None
+        if g.kind == "method":
+            if thisp.ty[0] not in ("obj", "flat") or (thisp.ty[1].root if thisp.ty[0] == "obj" else thisp.ty[1]) is not (g.cls.root if g.cls.kind != "flat" else g.cls):
+                raise Untranslatable("object class of a method call")
+            thisv = thisp.read(self, B)
+        self.absorb(g)
+        comps = []
+        if g.kind == "method":
+            comps.append("_" if (g.const or thisp.const) else self.fresh("o"))
+            if thisp.const and not g.const:
+                raise Untranslatable("non-const method on a const object")
+        r = None
+        if g.has_value:
+            r = self.fresh()
+            comps.append(r)
+        elif g.kind == "method":
+            comps.append("_")
+        ionames = [self.fresh("o") for _ in ios]
+        comps += ionames
+        pat = comps[0] if len(comps) == 1 else "(" + ", ".join(comps) + ")"
+        if not comps:
+            pat = "_"
+        B.append("let %s ← %s" % (pat, self.call_text(g, thisv, argv)))
+        if g.kind == "method" and comps[0] != "_":
+            thisp.write(self, comps[0], B)
+        for p, nm in zip(ios, ionames):
+            p.write(self, nm, B)
+        return r
+
+    def call(self, n, B, want_value):
+        did = self.callee_decl(n)
+        if did is not None and self.PT.is_pv_decl(did):
+            return self.call_pv(n, B)
+        if n.get("kind") == "CXXMemberCallExpr":
+            me = n["inner"][0]
+            while me.get("kind") in ("ParenExpr", "ImplicitCastExpr"):
+                me = me["inner"][0]
+            b = self.strip(me["inner"][0]) if me.get("kind") == "MemberExpr" else {}
+            if b.get("kind") == "CXXThisExpr":
+                raise Untranslatable("method of the same object outside the value mode")     # never an opaque input here
+        return ObjFn.call(self, n, B, want_value)
+
+    # ------------------------------------------------------------------ expressions
+    def uptr_test(self, n, B):
+        """`p.get()` / `p.operator bool()` of a unique_ptr place as a Bool, or None"""
+        x = self.strip(n)
+        if x.get("kind") == "CXXMemberCallExpr" and len(x["inner"]) == 1:
+            me = x["inner"][0]
+            if me.get("kind") == "MemberExpr" and me.get("name") in ("get", "operator bool"):
+                p = self.place(me["inner"][0], B)
+                if p is not None and p.ty[0] == "uptr":
+                    return "(%s).isSome" % p.read(self, B)
+        return None
+
+    def ex(self, n, B):
+        k = n.get("kind")
+        if k in ("ImplicitCastExpr",) and n.get("castKind") in ("PointerToBoolean", "UserDefinedConversion"):
+            r = self.uptr_test(n["inner"][0], B)
+            if r is not None:
+                return r
+            raise Untranslatable("conversion to bool of " + str(n["inner"][0].get("kind")))
+        pv = self.pvty(n) if k not in ("IntegerLiteral", "CXXBoolLiteralExpr") else None
+        if pv is not None:
+            return self.val(n, B)
+        if k in ("ImplicitCastExpr", "CXXStaticCastExpr") and n.get("castKind") == "IntegralCast" and self.enum_const(n["inner"][0]) is not None:
+            return self.lit(self.enum_const(n["inner"][0]), self.ty(n))        # an enumerator of an unnamed enum
+        if k == "BinaryOperator" and n.get("opcode") in ("==", "!="):
+            a, b = n["inner"]
+            sa, sb = self.strip(a), self.strip(b)
+            ta = a.get("type", {}).get("qualType", "")
+            tb = b.get("type", {}).get("qualType", "")
+            if ta.rstrip().endswith("*") and tb.rstrip().endswith("*"):
+                # this == &parameter
+                for u, v in ((sa, sb), (sb, sa)):
+                    if u.get("kind") == "CXXThisExpr" and v.get("kind") == "UnaryOperator" and v.get("opcode") == "&":
+                        t = self.strip(v["inner"][0])
+                        if t.get("kind") == "DeclRefExpr" and (t["referencedDecl"]["id"] in self.objs or t["referencedDecl"]["id"] == self.alias_of):
+                            self.addr_cmp = True
+                            if self.alias_of is None:
+                                self.alias_of = t["referencedDecl"]["id"]
+                            elif self.alias_of != t["referencedDecl"]["id"]:
+                                raise Untranslatable("`this` compared with two different parameters")
+                            return "g_sameObject" if n["opcode"] == "==" else "(!g_sameObject)"
+                # two pointers into the byte vectors of objects
+                Ba, Bb = [], []
+                pa, pb = self.pptr(a, Ba), self.pptr(b, Bb)
+                if pa is not None and pb is not None and not Ba and not Bb:
+                    if getattr(self, "_sameptr_used", False):
+                        raise Untranslatable("more than one undecidable pointer comparison")
+                    self._sameptr_used = True
+                    if "g_samePtr" not in self.gparams:
+                        self.gparams.append("g_samePtr")
+                    return "g_samePtr" if n["opcode"] == "==" else "(!g_samePtr)"
+        if k == "CXXOperatorCallExpr":
+            did = self.callee_decl(n)
+            if did is not None and self.PT.is_pv_decl(did):
+                r = self.call_pv(n, B)
+                if r is None:
+                    raise Untranslatable("void operator used as a value")
+                return r
+        if k == "CXXMemberCallExpr":
+            did = self.callee_decl(n)
+            if did is not None and self.PT.is_pv_decl(did):
+                r = self.call_pv(n, B)
+                if r is None:
+                    raise Untranslatable("void call used as a value")
+                return r
+            me = n["inner"][0]
+            if me.get("kind") == "MemberExpr" and len(n["inner"]) == 1 and me.get("name") in ("size", "empty"):
+                p = self.place(me["inner"][0], B)
+                if p is not None and p.ty == ("bytes",):
+                    v = p.read(self, B)
+                    return "(%s).length" % v if me["name"] == "size" else "(%s).isEmpty" % v
+        if k == "CallExpr":
+            did = self.callee_decl(n)
+            if did is not None and self.PT.is_pv_decl(did):
+                r = self.call_pv(n, B)
+                if r is None:
+                    raise Untranslatable("void call used as a value")
+                return r
+        if k == "MemberExpr" or (k == "DeclRefExpr" and n["referencedDecl"]["id"] in self.objs):
+            p = self.place(n, B)
+            if p is not None and p.ty[0] in ("i", "b"):
+                return p.read(self, B)
+        return ObjFn.ex(self, n, B)
+
+    # ------------------------------------------------------------------ effects
+    def effect(self, s, B):
+        k = s.get("kind")
+        if k in ("ExprWithCleanups", "ParenExpr"):
+            return self.effect(s["inner"][0], B)
+        if k == "CXXOperatorCallExpr" and self.strip_casts(s["inner"][0]).get("referencedDecl", {}).get("name") == "operator=" and len(s["inner"]) == 3:
+            lhs, rhs = s["inner"][1], s["inner"][2]
+            p = self.place(lhs, B)
+            if p is not None and p.ty[0] in ("uptr", "flat"):
+                did = self.callee_decl(s)
+                dn = self.tu.decl(did) if did in self.tu.nodes else {}
+                if p.ty[0] == "flat" and not dn.get("isImplicit"):
+                    raise Untranslatable("user-defined assignment of a flat class")
+                if p.ty[0] == "uptr":
+                    r = self.strip(rhs)
+                    if rhs.get("kind") != "MaterializeTemporaryExpr" and r.get("kind") not in ("CallExpr", "CXXMemberCallExpr"):
+                        raise Untranslatable("unique_ptr assigned from something that is not a temporary")
+                v = self.val(rhs, B)
+                p.write(self, v, B)                 # the object owned before is destroyed: not observable
+                return
+            if p is not None and p.ty[0] == "obj":
+                did = self.callee_decl(s)
+                if did is not None and self.PT.is_pv_decl(did):
+                    self.call_pv(s, B)
+                    return
+            raise Untranslatable("assignment operator on " + str(self.strip(lhs).get("kind")))
+        if k == "CallExpr":
+            c = self.strip_casts(s["inner"][0])
+            rd = c.get("referencedDecl", {})
+            if rd.get("name") == "swap" and rd.get("id") not in self.tu.nodes and len(s["inner"]) == 3:
+                # std::swap on two scalars / two unique_ptrs: the values change places
+                a, b = s["inner"][1], s["inner"][2]
+                pa, pb = self.place(a, B), self.place(b, B)
+                if pa is None or pb is None or pa.ty != pb.ty or pa.ty[0] not in ("i", "b", "uptr", "flat"):
+                    raise Untranslatable("std::swap outside the supported shapes")
+                ta, tb = self.fresh(), self.fresh()
+                B.append("let %s := %s" % (ta, pa.read(self, B)))
+                B.append("let %s := %s" % (tb, pb.read(self, B)))
+                pa.write(self, tb, B)
+                pb.write(self, ta, B)
+                return
+        if k in ("CallExpr", "CXXMemberCallExpr", "CXXOperatorCallExpr"):
+            did = self.callee_decl(s)
+            if did is not None and self.PT.is_pv_decl(did):
+                self.call_pv(s, B)
+                return
+        if k == "CXXOperatorCallExpr":
+            raise Untranslatable("overloaded operator")
+        return ObjFn.effect(self, s, B)
+
+    # ------------------------------------------------------------------ results
+    def result(self, val):
+        comps = []
+        if self.has_s:
+            comps.append("s")
+        if val is not None:
+            comps.append(val)
+        elif self.has_s and not self.is_ctor:
+            comps.append(self.void_result())
+        comps += [nm for nm, _ in self.inout]
+        if not comps:
+            return "()"
+        return comps[0] if len(comps) == 1 else "(" + ", ".join(comps) + ")"
+
+    def result_type(self):
+        comps = []
+        if self.has_s:
+            comps.append(self.pcls.ltype())
+        if self.ret_lty is not None:
+            comps.append(self.ret_lty)
+        elif self.has_s and not self.is_ctor:
+            comps.append("Bytes" if self.outbuf is not None else "Unit")
+        comps += [ty for _, ty in self.inout]
+        if not comps:
+            return "Unit"
+        return " × ".join(comps)
+
+    def emit_return(self, val, ind):
+        pad = "  " * ind
+        if self.loop_ret:
+            return pad + "pure " + self.loop_ret[-1]("(some %s)" % (val if val is not None else "()"))
+        return pad + "pure " + self.result(val)
+
+    def fall_off(self, ind):
+        if self.ret_lty is None:
+            return self.emit_return(None, ind)
+        return "  " * ind + "none"
+
+    def ret_code(self, val, ind):
+        return self.emit_return(None, ind)
+
+    def ret_code_v(self, v, ind):
+        return self.emit_return(v, ind)
+
+    # ------------------------------------------------------------------ statements
+    def stmt(self, s, k, ind):
+        kind = s.get("kind")
+        pad = "  " * ind
+        if kind == "DeclStmt":
+            ds = s.get("inner", [])
+            if all(d.get("kind") == "UsingDecl" for d in ds):
+                return k(ind)                       # `using std::swap;`
+            if len(ds) == 1 and ds[0].get("kind") == "VarDecl":
+                d = ds[0]
+                pv = self.PT.pvtype(d.get("type"))
+                init = [c for c in d.get("inner", []) if c.get("kind") not in ("FullComment",)]
+                if pv is not None and pv[0] != "wrec":
+                    q = d.get("type", {}).get("qualType", "").strip()
+                    if q.endswith("&") or not init:
+                        raise Untranslatable("local reference / uninitialised local object")
+                    B = []
+                    v = self.val(init[0], B)
+                    nm = self.vname(d["name"])
+                    B.append("let %s := %s" % (nm, v))
+                    self.objs[d["id"]] = Place("var", pv[:2], name=nm, const=q.startswith("const"))
+                    self.local_ty[nm] = self.PT.ltype_of(pv)
+                    return self.with_binds(B, k(ind), ind)
+        if kind == "IfStmt":
+            return FnTr.stmt(self, s, k, ind)         # the continuation is emitted in both branches (no join: objects may change)
+        if kind == "ForStmt":
+            init, _cv, cond, inc, body = (s["inner"] + [None] * 5)[:5]
+            if _cv or cond is None:
+                raise Untranslatable("for statement shape")
+            if init is None or init.get("kind") is None:
+                return self.gen_loop(cond, body, inc, k, ind)
+            return self.stmt(init, lambda i2: self.gen_loop(cond, body, inc, k, i2), ind)
+        if kind == "WhileStmt":
+            return self.gen_loop(s["inner"][0], s["inner"][1], None, k, ind)
+        if kind == "ReturnStmt" and s.get("inner"):
+            if self.ret_self:
+                x = self.strip(s["inner"][0])
+                if x.get("kind") == "UnaryOperator" and x.get("opcode") == "*" and self.strip(x["inner"][0]).get("kind") == "CXXThisExpr":
+                    return self.emit_return(None, ind)
+                raise Untranslatable("a function returning a reference to its class returns something else than *this")
+            B = []
+            v = self.ex(s["inner"][0], B)
+            return self.with_binds(B, self.emit_return(v, ind), ind)
+        if kind == "ReturnStmt":
+            return self.emit_return(None, ind)
+        if kind in ("DoStmt", "CXXForRangeStmt", "CXXTryStmt", "ContinueStmt", "GotoStmt"):
+            raise Untranslatable(kind)
+        return ObjFn.stmt(self, s, k, ind)
+
+    def gen_loop(self, cond, body, inc, k, ind):
+        if self.contains(body, ("ContinueStmt", "GotoStmt")):
+            raise Untranslatable("continue inside a loop")
+        self.has_fuel = True
+        self.nloops += 1
+        name = "%s_loop%d" % (self.fn.lean, self.nloops)
+        has_ret = self.contains(body, ("ReturnStmt",))
+        live = [(nm, ty) for nm, ty in self.local_ty.items() if nm not in self.gparams]
+        did_of = {v: kk for kk, v in self.locals.items()}
+        mut_objs = set(p.name for p in self.objs.values() if p.kind == "var" and not p.const)
+        assigned = [nm for nm, _ in live if (nm in did_of and (self.assigns(body, did_of[nm]) or (inc is not None and self.assigns(inc, did_of[nm])))) or nm in mut_objs]
+        carried = (["s"] if self.has_s else []) + assigned
+        carried_ty = ([self.pcls.ltype()] if self.has_s else []) + [dict(live)[a] for a in assigned]
+
+        def tup(first):
+            comps = ([first] if has_ret else []) + carried
+            if not comps:
+                return "()"
+            return comps[0] if len(comps) == 1 else "(" + ", ".join(comps) + ")"
+        ret_ty = " × ".join((["Option %s" % (self.ret_lty or "Unit")] if has_ret else []) + carried_ty) or "Unit"
+        B = []
+        c = self.cond(cond, B)
+        saved = (dict(self.local_ty), dict(self.locals), dict(self.objs), dict(self.prov))
+        self.loop_ret.append(tup)
+        self.break_k.append(lambda i2: "  " * i2 + "pure " + tup("none"))
+
+        def again(i2):
+            B2 = []
+            if inc is not None:
+                self.effect(inc, B2)
+            return self.with_binds(B2, "  " * i2 + "%s fuel ⟪G⟫⟪S⟫⟪M⟫%s" % (name, " ".join(nm for nm, _ in live)), i2)
+        body_code = self.stmt(body, again, 3)
+        self.break_k.pop()
+        self.loop_ret.pop()
+        self.local_ty, self.locals, self.objs, self.prov = saved
+        g = "".join(p + " " for p in self.gparams)
+        sarg = "s " if self.has_s else ""
+        mem = "m " if self.fn.uses_mem else ""
+        body_code = body_code.replace("⟪G⟫", g).replace("⟪S⟫", sarg).replace("⟪M⟫", mem)
+        params = "".join("(%s : Bool) " % p for p in self.gparams) + ("(s : %s) " % self.pcls.ltype() if self.has_s else "") + \
+            ("(m : Bytes) " if self.fn.uses_mem else "") + " ".join("(%s : %s)" % (nm, ty) for nm, ty in live)
+        code = ["def %s (fuel : Nat) %s : Option (%s) :=" % (name, params, ret_ty), "  match fuel with", "  | 0 => none", "  | fuel + 1 => do"]
+        code += ["    " + b for b in B]
+        code.append("    if %s then" % c)
+        code.append(body_code)
+        code.append("    else")
+        code.append("      pure " + tup("none"))
+        self.aux.append("\n".join(code) + "\n")
+        pad = "  " * ind
+        call = "%s fuel %s%s%s%s" % (name, g, sarg, mem, " ".join(nm for nm, _ in live))
+        if not has_ret:
+            return pad + "let %s ← %s\n" % (tup(None), call) + k(ind)
+        out = pad + "let %s ← %s\n" % (tup("r_"), call)
+        out += pad + "match r_ with\n"
+        out += pad + "| some r_ => pure %s\n" % self.result("r_" if self.ret_lty is not None else None)
+        out += pad + "| none =>\n" + k(ind + 1)
+        return out
+
+    # ------------------------------------------------------------------ entry
+    def sig_suffix(self, ps):
+        out = []
+        for c in ps:
+            pv = self.PT.pvtype(c.get("type"))
+            if pv is not None:
+                out.append(pv[1].name if pv[0] != "wrec" else self.T.ident(pv[1]))
+            else:
+                t = self.T.ctype(c.get("type"))
+                out.append(self.T.suffix(t))
+        return "_".join(out)
+
+    def run_pv(self):
+        n = self.node
+        PT, T = self.PT, self.T
+        f = self.fn
+        f.qual = self.tu.qualname(n)
+        f.node = n
+        qt = n.get("type", {}).get("qualType", "")
+        ctx = self.tu.context(n)
+        cq = self.tu.qualname(ctx) if ctx is not None and ctx.get("kind") == "CXXRecordDecl" else None
+        pcls = PT.cls_by_qual(cq) if cq else None
+        static = n.get("storageClass") == "static" or any(c.get("storageClass") == "static" for c in self.tu.nodes.get(n.get("previousDecl") or "", []))
+        ps = [c for c in n.get("inner", []) if c.get("kind") == "ParmVarDecl"]
+        info = PvFnInfo()
+        if n["kind"] == "CXXConstructorDecl":
+            info.kind = "ctor"
+            self.is_ctor = True
+            self.has_s = True
+            self.pcls = pcls
+        elif n["kind"] == "CXXMethodDecl" and not static:
+            info.kind = "method"
+            self.has_s = True
+            self.pcls = pcls
+        else:
+            info.kind = "free"
+        if info.kind != "free" and pcls is None:
+            raise Untranslatable("method of a class outside the value mode")
+        self.cls = self.pcls.root if self.pcls is not None and self.pcls.kind != "flat" else (self.pcls or PT.dummy)
+        info.cls = self.pcls
+        info.const = info.kind == "method" and qt.rstrip().endswith("const")
+        self.const_this = info.const
+        # ---- name
+        base = n.get("name", "f")
+        opname = PV_OPNAMES.get(base)
+        if base.startswith("operator") and opname is None:
+            raise Untranslatable("operator " + base)
+        if info.kind == "ctor":
+            cm = self.is_copy_or_move(pcls, n)
+            lean = "%s_ctor_%s" % (pcls.name, cm or (self.sig_suffix(ps) if ps else "default"))
+        elif info.kind == "method":
+            lean = "%s_%s" % (pcls.name, opname or base)
+            if opname == "opAssign":
+                q0 = ps[0].get("type", {}).get("qualType", "").strip() if ps else ""
+                lean += "_move" if q0.endswith("&&") else "_copy"
+            elif PT.overloads(n) > 1 and not info.const:
+                lean += "_mut"
+        else:
+            owner = (pcls.name + "_") if pcls is not None else ""
+            lean = owner + (opname or base)
+            if pcls is None:
+                lean += "_" + self.sig_suffix(ps[:1])
+        if self.alias:
+            lean += "_self"
+        if PT.names.get(lean + "_pv", id(n)) != id(n) and ps:
+            lean += "_" + self.sig_suffix(ps)
+        if PT.names.get(lean + "_pv", id(n)) != id(n):
+            raise Untranslatable("two functions would get the Lean name %s_pv" % lean)
+        PT.names[lean + "_pv"] = id(n)
+        f.lean = lean + "_pv"
+        # ---- return type
+        rts = qt.split("(")[0].strip()
+        self.ret_lty = None
+        info.has_value = False
+        f.ret = ("v",)
+        if info.kind == "ctor":
+            pass
+        else:
+            rpv = PT.pvtype_s(rts)
+            if rpv is not None:
+                if rts.endswith("&") and not rts.startswith("const"):
+                    if info.kind == "method" and rpv[0] == "obj" and rpv[1] is pcls:
+                        self.ret_self = True          # `return *this;`
+                    else:
+                        raise Untranslatable("returns a mutable reference into the object")
+                else:
+                    self.ret_lty = PT.ltype_of(rpv)
+                    f.ret = rpv
+                    info.has_value = True
+            else:
+                f.ret = T.ctype_s(rts)
+                if f.ret[0] == "p":
+                    raise Untranslatable("returns a pointer (used through its provenance at the call sites)")
+                if f.ret[0] not in ("v", "i", "b"):
+                    raise Untranslatable("return type " + rts)
+                if f.ret[0] != "v":
+                    self.ret_lty = "Bool" if f.ret[0] == "b" else "Nat"
+                    info.has_value = True
+        # ---- parameters
+        info.params = []
+        body = TU.body_of(n)
+        for i, c in enumerate(ps):
+            q = c.get("type", {}).get("qualType", "").strip()
+            pv = PT.pvtype(c.get("type"))
+            nm = self.vname(c.get("name") or "anon%d" % (i + 1), "a_")
+            if pv is not None and pv[0] == "wrec":
+                if q.endswith("&") or q.endswith("*"):
+                    raise Untranslatable("wire record by reference")
+                self.locrec[c["id"]] = (nm, pv[1])
+                self.local_ty[nm] = "Bytes"
+                info.params.append((nm, pv, "val"))
+                continue
+            if pv is not None:
+                isref = q.endswith("&")
+                const = q.startswith("const")
+                if pv[0] == "uptr" and isref:
+                    raise Untranslatable("unique_ptr by reference")
+                if self.alias and pv[0] == "obj" and isref and const and pv[1] is pcls and self.alias_of in (None, c["id"]) and PT.alias_param.get(id(n)) == i:
+                    self.alias_of = c["id"]       # this parameter IS *this: no Lean parameter
+                    continue
+                if isref and not const:
+                    if pv[0] != "obj":
+                        raise Untranslatable("non-const reference to " + q)
+                    self.inout.append((nm, PT.ltype_of(pv)))
+                    self.objs[c["id"]] = Place("var", pv[:2], name=nm, const=False)
+                    info.params.append((nm, pv, "inout"))
+                else:
+                    self.objs[c["id"]] = Place("var", pv[:2], name=nm, const=isref or const)
+                    info.params.append((nm, pv, "val"))
+                self.local_ty[nm] = PT.ltype_of(pv)
+                continue
+            if strip_cv(q) in ("void *", "void*"):
+                if self.only_memcpy_dest(c["id"], body):
+                    self.outbuf = c["id"]
+                    continue
+                raise Untranslatable("void* parameter")
+            t = T.ctype(c.get("type"))
+            if t[0] not in ("i", "b", "p"):
+                raise Untranslatable("parameter type %s" % (t,))
+            self.locals[c["id"]] = nm
+            self.local_ty[nm] = "Bool" if t[0] == "b" else "Nat"
+            info.params.append((nm, t, "val"))
+        f.params = info.params
+        # ---- constructor initialisers
+        pre = []
+        if info.kind == "ctor":
+            pre = self.ctor_inits(n, pcls)
+        code = self.block(body.get("inner", []), self.fall_off, 1)
+        code = "".join("  " + x + "\n" for x in pre) + code
+        if self.outbuf is not None:
+            code = "  let out_ := ([] : Bytes)\n" + code
+        if self.addr_cmp:
+            code = "  let g_sameObject := %s\n" % ("true" if self.alias else "false") + code
+        f.body = code
+        info.lean = f.lean
+        info.qual = f.qual
+        info.uses_mem = bool(f.uses_mem)
+        info.has_fuel = self.has_fuel
+        info.gparams = list(self.gparams)
+        info.aux = self.aux
+        info.body = code
+        info.addr_cmp = self.addr_cmp
+        info.alias_index = None
+        if self.addr_cmp and self.alias_of is not None:
+            info.alias_index = [i for i, c in enumerate(ps) if c["id"] == self.alias_of][0]
+        # signature
+        sig = []
+        if self.has_fuel:
+            sig.append("(fuel : Nat)")
+        sig += ["(%s : Bool)" % p for p in self.gparams]
+        if self.has_s and not self.is_ctor:
+            sig.append("(s : %s)" % self.pcls.ltype())
+        if f.uses_mem:
+            sig.append("(m : Bytes)")
+        for nm, t, mode in info.params:
+            sig.append("(%s : %s)" % (nm, PT.ltype_of(t)))
+        info.sig = " ".join(sig)
+        info.rtype = self.result_type()
+        info.doc = "`%s` %s" % (f.qual, qt)
+        return info
+
+    def ctor_inits(self, n, pcls):
+        """member initialisers (or default member initialisers) in declaration order; a derived class: its base initialiser"""
+        B = []
+        inits = [c for c in n.get("inner", []) if c.get("kind") == "CXXCtorInitializer"]
+        if pcls.kind == "sub":
+            if len(inits) != 1 or "baseInit" not in inits[0]:
+                raise Untranslatable("constructor of a derived class without exactly one base initialiser")
+            e = self.strip(inits[0]["inner"][0])
+            bpv = self.pvty(e)
+            if e.get("kind") != "CXXConstructExpr" or bpv is None or bpv[0] != "obj" or bpv[1].root is not pcls.root:
+                raise Untranslatable("base initialiser shape")
+            v = self.construct(e, B)
+            B.append("let s := %s" % v)
+            return B
+        vals = {}
+        for c in inits:
+            if "anyInit" not in c:
+                raise Untranslatable("initialiser that is not a member initialiser")
+            vals[c["anyInit"].get("name")] = c["inner"][0]
+        names = []
+        for fld in pcls.fields:
+            nm, fk, finfo = fld
+            e = vals.pop(nm, None)
+            if e is None:
+                raise Untranslatable("member %s is not initialised" % nm)
+            if e.get("kind") == "CXXDefaultInitExpr":
+                fd = [x for x in pcls.rec.get("inner", []) if x.get("kind") == "FieldDecl" and x.get("name") == nm][0]
+                init = [x for x in fd.get("inner", []) if x.get("kind") not in ("FullComment",)]
+                if not init:
+                    raise Untranslatable("member %s without default initialiser" % nm)
+                e = init[0]
+            while e.get("kind") == "InitListExpr" and len(e.get("inner", [])) == 1:
+                e = e["inner"][0]
+            if fk == "scalar":
+                if e.get("kind") == "InitListExpr" and not e.get("inner"):
+                    v = "false" if finfo[0] == "b" else "0"
+                else:
+                    v = self.ex(e, B)
+            elif fk == "bytes":
+                v = self.bytes_init(e, B)
+            else:
+                v = self.val(e, B)
+            iv = "i_%s" % nm
+            B.append("let %s := %s" % (iv, v))
+            names.append((nm, iv))
+        if vals:
+            raise Untranslatable("initialiser of an unknown member")
+        if pcls.kind == "flat":
+            B.append("let s := %s" % names[0][1])
+        else:
+            B.append("let s : %s := { %s }" % (pcls.ltype(), ", ".join("f_%s := %s" % x for x in names)))
+        return B
+
+    def bytes_init(self, e, B):
+        x = self.strip(e)
+        if x.get("kind") != "CXXConstructExpr":
+            raise Untranslatable("vector initialiser")
+        ct = x.get("ctorType", {}).get("qualType", "")
+        args = [a for a in x.get("inner", []) if a.get("kind") != "CXXDefaultArgExpr"]
+        if not args and not x.get("inner"):
+            return "([] : Bytes)"
+        if len(args) == 1 and "size_type" in ct and "value_type" not in ct and "initializer_list" not in ct:
+            return "(zeros %s)" % self.ex(args[0], B)             # vector(n): n value-initialised (zero) bytes
+        if len(args) == 1 and re.fullmatch(r"void \(const (std::)?vector<(unsigned char|uint8_t)(, std::allocator<unsigned char>)?> &\)", ct):
+            p = self.place(args[0], B)
+            if p is not None and p.ty == ("bytes",):
+                return p.read(self, B)
+        raise Untranslatable("vector constructor " + ct)
+
+
+class PvTranslator:
+    """packet value mode over the classes named in `flat` / `records` (qualified name -> name of the Lean record)"""
+
+    def __init__(self, T, flat, records, wire_records=("ASAM::CMP::MessageHeader",)):
+        self.T = T
+        self.elem = None
+        self.classes = {}
+        self.order_cls = []
+        recs = {T.tu.qualname(r): r for r in T.tu.records()}
+        self.recs = recs
+        for q in flat:
+            if q not in recs:
+                raise Untranslatable("class %s not found" % q)
+            self.classes[q] = PvClass(self, recs[q], "flat")
+        for q, st in records:
+            if q not in recs:
+                raise Untranslatable("class %s not found" % q)
+            self.classes[q] = PvClass(self, recs[q], "rec", stname=st)
+            self.order_cls.append(self.classes[q])
+        self.wire = [q for q in wire_records if q in T.layout.size]
+        for q in list(self.classes):
+            self.classes[q].collect_fields()
+        self.dummy = PvClass(self, {"kind": "CXXRecordDecl", "name": "none", "inner": []}, "rec")
+        self.fns = {}
+        self.order = []
+        self.failed = {}
+        self.notes = {}
+        self.names = {}
+        self.alias_param = {}
+        self.cls = None
+
+    # ---- types
+    def cls_by_qual(self, q):
+        if q is None:
+            return None
+        q = strip_cv(q)
+        if q in self.classes:
+            return self.classes[q]
+        c = [k for k in self.recs if k == q or k.endswith("::" + q)]
+        c = [k for k in c if k.startswith("ASAM::CMP::")] or c
+        if len(c) != 1:
+            return None
+        q = c[0]
+        if q in self.classes:
+            return self.classes[q]
+        # a class derived (through a chain of single inheritance) from a record class, without data members of its own
+        chain, cur = [], self.recs[q]
+        while True:
+            bases = cur.get("bases") or []
+            if len(bases) != 1:
+                return None
+            bq = strip_cv(bases[0]["type"].get("desugaredQualType") or bases[0]["type"]["qualType"])
+            b = self.cls_by_qual(bq)
+            if b is None or b.kind == "flat":
+                return None
+            cls = PvClass(self, self.recs[q], "sub", root=b.root)
+            cls.collect_fields()
+            self.classes[q] = cls
+            return cls
+
+    def pvtype_s(self, q):
+        if not q:
+            return None
+        t = strip_cv(q)
+        while t.endswith("&"):
+            t = strip_cv(t[:-1])
+        if t.endswith("*"):
+            return None
+        m = re.fullmatch(r"(?:std::)?unique_ptr<\s*([A-Za-z_0-9:]+)\s*(?:,\s*(?:std::)?default_delete<[^<>]*>\s*)?>", t)
+        if m:
+            c = self.cls_by_qual(m.group(1))
+            if c is not None and c.kind != "flat":
+                return ("uptr", c)
+            return None
+        if not re.fullmatch(r"[A-Za-z_0-9:]+", t):
+            return None
+        if t in INT_NAMES or t == "bool" or t == "void":
+            return None
+        for w in self.wire:
+            if t == w or w.endswith("::" + t):
+                return ("wrec", w)
+        c = self.cls_by_qual(t)
+        if c is None:
+            return None
+        return ("flat", c) if c.kind == "flat" else ("obj", c)
+
+    def pvtype(self, tnode):
+        if not tnode:
+            return None
+        for q in (tnode.get("desugaredQualType"), tnode.get("qualType")):
+            r = self.pvtype_s(q) if q else None
+            if r is not None:
+                return r
+        return None
+
+    def ltype_of(self, t):
+        if t[0] in ("obj", "flat"):
+            return t[1].ltype()
+        if t[0] == "uptr":
+            return "Option %s" % t[1].ltype()
+        if t[0] == "wrec":
+            return "Bytes"
+        return "Bool" if t[0] == "b" else "Nat"
+
+    def is_pv_decl(self, did):
+        """is the declared function translated in the value mode (rather than as a byte-level function on the memory)?"""
+        try:
+            d = self.T.tu.decl(did)
+        except Untranslatable:
+            return False
+        k = d.get("kind")
+        if k not in ("FunctionDecl", "CXXMethodDecl", "CXXConstructorDecl"):
+            return False
+        ctx = self.T.tu.context(d)
+        static = d.get("storageClass") == "static" or any(c.get("storageClass") == "static" for c in self.T.tu.nodes.get(d.get("previousDecl") or "", []))
+        if k != "FunctionDecl" and not static:
+            if ctx is None or ctx.get("kind") != "CXXRecordDecl":
+                return False
+            return self.cls_by_qual(self.T.tu.qualname(ctx)) is not None
+        qt = d.get("type", {}).get("qualType", "")
+        if self.pvtype_s(qt.split("(")[0].strip()) is not None:
+            return True
+        return any(self.pvtype(c.get("type")) is not None for c in d.get("inner", []) if c.get("kind") == "ParmVarDecl")
+
+    def overloads(self, n):
+        ctx = self.T.tu.context(n)
+        if ctx is None:
+            return 1
+        return len([c for c in ctx.get("inner", []) if c.get("kind") == n["kind"] and c.get("name") == n.get("name")])
+
+    # ---- functions
+    def key_of(self, defnode):
+        return self.T.tu.qualname(defnode) + " " + defnode.get("type", {}).get("qualType", "")
+
+    def translate(self, defnode, alias=False):
+        key = (id(defnode), alias)
+        if key in self.fns:
+            f = self.fns[key]
+            if isinstance(f, Untranslatable):
+                raise f
+            if f is None:
+                raise Untranslatable("recursive call")
+            return f
+        self.fns[key] = None
+        try:
+            f = PvFn(self, defnode, alias).run_pv()
+        except Untranslatable as e:
+            self.fns[key] = e
+            self.failed[self.key_of(defnode) + (" [this == &parameter]" if alias else "")] = str(e)
+            raise
+        except (KeyError, IndexError, TypeError, AttributeError, ValueError, AssertionError) as e:
+            u = Untranslatable("unexpected AST shape %r" % (e,))
+            self.fns[key] = u
+            self.failed[self.key_of(defnode) + (" [this == &parameter]" if alias else "")] = str(u)
+            raise u
+        self.fns[key] = f
+        self.order.append(f)
+        if not alias and not f.addr_cmp:
+            # a mutated object (`this` of a non-const method, a non-const reference parameter) and another reference parameter of the same class
+            roots = [t[1].root for _, t, mode in f.params if t[0] == "obj" and mode == "inout"]
+            if f.kind == "method" and not f.const and f.cls.kind != "flat":
+                roots.append(f.cls.root)
+            refs = [t[1].root for _, t, mode in f.params if t[0] == "obj"]
+            if any(refs.count(r) + (1 if (f.kind == "method" and f.cls.kind != "flat" and f.cls.root is r) else 0) >= 2 for r in roots):
+                self.notes[self.key_of(defnode) + " [two of its object arguments are the same object]"] = \
+                    "not generated: `%s` is for DISTINCT objects (no address comparison in the body to derive a `_self` variant from)" % f.lean
+        if f.addr_cmp and not alias and f.alias_index is not None:
+            # the same body once more, with the compared parameter being *this
+            self.alias_param[id(defnode)] = f.alias_index
+            try:
+                self.translate(defnode, alias=True)
+            except Untranslatable:
+                pass
+        return f
+
+    def functions_of(self, quals, friends_of):
+        """every function with a body that belongs to the classes `quals` (methods, constructors) or takes / returns one of `friends_of` by name"""
+        out = []
+        seen = set()
+        for lst in self.T.tu.nodes.values():
+            for n in lst:
+                if n["kind"] not in ("FunctionDecl", "CXXMethodDecl", "CXXConstructorDecl") or TU.body_of(n) is None or id(n) in seen:
+                    continue
+                ctx = self.T.tu.context(n)
+                cq = self.T.tu.qualname(ctx) if ctx is not None and ctx.get("kind") == "CXXRecordDecl" else None
+                if cq in quals:
+                    seen.add(id(n))
+                    out.append(n)
+                elif n["kind"] == "FunctionDecl" and cq is None and self.T.tu.qualname(n).startswith("ASAM::CMP::"):
+                    pts = [self.pvtype(c.get("type")) for c in n.get("inner", []) if c.get("kind") == "ParmVarDecl"]
+                    if any(p is not None and p[0] in ("obj", "flat") and p[1].qual in friends_of for p in pts):
+                        seen.add(id(n))
+                        out.append(n)
+        out.sort(key=lambda n: (self.T.tu.qualname(n), n.get("type", {}).get("qualType", "")))
+        return out
+
+    def run(self):
+        quals = [q for q, c in self.classes.items() if c.kind in ("flat", "rec")]
+        for n in self.functions_of(quals, quals):
+            ctx = self.T.tu.context(n)
+            cq = self.T.tu.qualname(ctx) if ctx is not None and ctx.get("kind") == "CXXRecordDecl" else None
+            cls = self.classes.get(cq)
+            if cls is not None and cls.kind == "flat" and n.get("isImplicit"):
+                self.notes[self.key_of(n)] = "implicit copy / assignment of a single-scalar class: the value itself (no function generated)"
+                continue
+            p = self.T.tu.parent.get(id(n))
+            if p is not None and p.get("kind") == "FunctionTemplateDecl":
+                self.failed[self.key_of(n)] = "template"
+                continue
+            try:
+                self.translate(n)
+            except Untranslatable:
+                pass
+
+    def emit(self):
+        out = ["/-! ## packet value mode (vlib/srcobj.py, `PvTranslator`): `PayloadType` (flat: its `uint32_t`), `Payload`, the payload",
+               "    constructors reached from `Packet::create`, and `Packet` with its owned payload, as values -/", ""]
+        for c in self.order_cls:
+            out.append(c.struct())
+        for f in self.order:
+            for a in f.aux:
+                out.append(a)
+            out.append("/-- %s -/" % f.doc.replace("-/", "- /"))
+            out.append("def %s %s : Option (%s) := do" % (f.lean, f.sig, f.rtype))
+            out.append(f.body)
+            out.append("")
+        items = dict(self.notes)
+        items.update(self.failed)
+        out.append("/-- functions with a body of the value-mode classes that are not translated (or deliberately not generated), with the reason -/")
+        out.append("def PacketValue_untranslated : List (String × String) := [")
+        its = sorted(items.items())
+        for i, (k, v) in enumerate(its):
+            out.append("  (%s, %s)%s" % (json_str(k), json_str(v[:160]), "," if i + 1 < len(its) else ""))
+        out.append("]")
+        out.append("")
+        out.append("def PacketValue_translated : List String := [%s]" % ", ".join(json_str(f.lean) for f in self.order))
+        return "\n".join(out) + "\n"
+
+
+def json_str(s):
+    import json
+    return json.dumps(s, ensure_ascii=False)
+
+
+INT_NAMES = set(["unsigned char", "signed char", "char", "unsigned short", "short", "unsigned int", "int", "unsigned long", "long", "unsigned long long",
+                 "long long", "uint8_t", "uint16_t", "uint32_t", "uint64_t", "int8_t", "int16_t", "int32_t", "int64_t", "size_t", "std::size_t", "ptrdiff_t"])
